@@ -57,6 +57,12 @@ def replay(ctx, doc):
         for f in hit:
             print("implementation:", f["what"])
         return bool(hit)
+    if doc["failure"]["input"].get("family") == "custom-names":
+        r = Result()
+        c19_parsers.custom_names_cases(ctx, r)
+        for f in r.oracle_failures:
+            print("implementation:", f["what"])
+        return bool(r.oracle_failures)
     if doc["failure"]["input"].get("family") == "custom-parser":
         r = Result()
         c19_parsers.custom_parser_cases(ctx, r)
